@@ -7,7 +7,7 @@ echo "|---|---|---|---|---|---|" >> $out
 for d in seeded/*/; do
   id=$(basename $d)
   [ -f $d/patch.diff ] || continue
-  pids=$(python3 -c "import json; m=json.load(open('$d/meta.json')); print(' '.join([m['property']] + [p for p in m.get('also_breaks', []) if p != m['property']]))")
+  pids=$(python3 -c "import json, os; m=json.load(open('$d/meta.json')); print(' '.join([m['property']] + ([] if os.environ.get('MATRIX_OWN_ONLY') else [p for p in m.get('also_breaks', []) if p != m['property']])))")
   [ -z "$(git -C /repo status --porcelain)" ] || { echo "/repo not clean"; exit 2; }
   git -C /repo apply /verif/$d/patch.diff || { echo "| $id | - | patch does not apply | | | |" >> $out; continue; }
   for p in $pids; do
